@@ -1584,18 +1584,42 @@ class unshimmed:
 # ---------------------------------------------------------------------------
 class SymLookupDict(dict):
     """dict subclass, identical on concrete keys.  With a SymInt key, membership is one
-    branch and the value is an If-chain over the keys inside the key's interval."""
+    branch and the value is a piecewise-affine select: the table is grouped into runs of
+    consecutive keys whose values are key + constant (an identity alphabet of 65536
+    characters is one run)."""
+    _cache = None
+
+    def _runs(self):
+        c = self._cache
+        if c is not None and c[0] == _len(self):
+            return c[1]
+        runs = []
+        for k in sorted(self):
+            v = dict.__getitem__(self, k)
+            if runs and runs[-1][1] == k - 1 and runs[-1][2] == v - k:
+                runs[-1][1] = k
+            else:
+                runs.append([k, k, v - k])
+        self._cache = (_len(self), runs)
+        return runs
 
     def _cands(self, k):
-        return [(kk, vv) for kk, vv in self.items() if k.lo <= kk <= k.hi]
+        out = []
+        for a, b, d in self._runs():
+            a2, b2 = max(a, k.lo), min(b, k.hi)
+            if a2 <= b2:
+                out.append((a2, b2, d))
+        return out
 
     def _member(self, k):
         c = self._cands(k)
         if not c:
             return False, c
-        if _len(c) == k.hi - k.lo + 1:
+        if sum(b - a + 1 for a, b, _d in c) == k.hi - k.lo + 1:
             return True, c
-        return E().branch(z3.Or([k.e == kk for kk, _v in c])), c
+        w = k.e.size()
+        return E().branch(z3.Or([z3.And(k.e >= a, k.e <= b) if a != b else k.e == a
+                                 for a, b, _d in c])), c
 
     def __getitem__(self, k):
         if not _isinstance(k, SymInt):
@@ -1603,15 +1627,16 @@ class SymLookupDict(dict):
         ok, c = self._member(k)
         if not ok:
             raise KeyError(k)
-        lo = min(v for _k, v in c)
-        hi = max(v for _k, v in c)
+        lo = min(a + d for a, _b, d in c)
+        hi = max(b + d for _a, b, d in c)
         if lo == hi:
             return lo
-        w = need(lo, hi)
-        e = z3.BitVecVal(c[-1][1], w)
-        for kk, vv in reversed(c[:-1]):
-            e = z3.If(k.e == kk, z3.BitVecVal(vv, w), e)
-        return SymInt(e, lo, hi)
+        w = max(need(lo, hi), k.e.size()) + 1
+        ke = fit(k.e, w)
+        e = ke + c[-1][2]
+        for a, b, d in reversed(c[:-1]):
+            e = z3.If(ke <= b, ke + d, e)
+        return _mk(e, lo, hi)
 
     def __contains__(self, k):
         if not _isinstance(k, SymInt):
@@ -1678,12 +1703,33 @@ def _has_proxy(x, depth=0):
     return False
 
 
+_RUNS = {}
+
+
 def native_contains(item, container):
     """``item in container`` for a native str/bytes container and a proxy item"""
     if _isinstance(container, _str):
         if _isinstance(item, SymStr):
-            return item in SymStr(list(container)) if _len(item.cp) == 1 else \
-                SymStr(list(container)).__contains__(item)
+            if _len(item.cp) != 1:
+                raise Inconclusive('substring search of a symbolic str in a str')
+            c = item.cp[0]
+            if _isinstance(c, _str):
+                return c in container
+            runs = _RUNS.get(container)
+            if runs is None:
+                cps = sorted(set(_ord(x) for x in container))
+                runs = []
+                for x in cps:
+                    if runs and runs[-1][1] == x - 1:
+                        runs[-1][1] = x
+                    else:
+                        runs.append([x, x])
+                if _len(_RUNS) < 64:
+                    _RUNS[container] = runs
+            if not runs:
+                return False
+            return E().branch(z3.Or([z3.And(z3.UGE(c, a), z3.ULE(c, b)) if a != b else c == a
+                                     for a, b in runs]))
         if _isinstance(item, (DigitStr, SymText)):
             raise Inconclusive('membership of a digit/text proxy in a str')
         return item in container
